@@ -473,6 +473,21 @@ def fam_C08(seed, n):
                 if y < 0.4:
                     sc.add("h login", r.choice(users), r.choice([0, 1]))
                 elif y < 0.6:
+                    if r.random() < 0.3:
+                        # a logout whose save fails (the session is user-less in memory, the record still carries the user),
+                        # then a global logout or an exclusive login elsewhere, which must still clear that record
+                        sc.add("fault save * 0")
+                        sc.add("h logout")
+                        sc.add("end")
+                        u = r.choice(users)
+                        if r.random() < 0.6:
+                            for uu in ([u] if r.random() < 0.5 else users):
+                                sc.add("logoutuser", uu)
+                        else:
+                            req(sc, r.randrange(ns))
+                            sc.add("h login", u, 1)
+                            sc.add("end")
+                        continue
                     sc.add("h logout")
                 elif y < 0.75:
                     sc.add("h user")
@@ -696,6 +711,30 @@ def crash_variants(name, script, blocks):
             v = list(lines)
             v.insert(b.idx, "crashinside %d" % k)
             out.append(("%s@%d/%d" % (name, b.idx, k), "\n".join(v) + "\n"))
+    return out
+
+
+def fault_crash_variants(name, script, blocks):
+    """C10: for every API call of the base history that changed an id, one variant per save of that call: that save fails
+    (the call reports it), the response goes out, the process restarts, the client comes back with whatever it holds."""
+    out = []
+    lines = script.rstrip("\n").split("\n")
+    for b in blocks:
+        saves = [e for e in b.evs if e[0] == "save"]
+        changes = any(e[0] == "save" and any(t.startswith("rf=") and t != "rf=-" for t in e[2:]) for e in b.evs)
+        if not changes:
+            continue
+        # the request's `end` line
+        end = b.idx
+        while end < len(lines) and lines[end].strip() != "end":
+            end += 1
+        if end >= len(lines):
+            continue
+        for k in range(len(saves)):
+            v = list(lines)
+            v.insert(end + 1, "crash")
+            v.insert(b.idx, "fault save * %d" % k)
+            out.append(("%s!%d.save.%d+crash" % (name, b.idx, k), "\n".join(v) + "\n"))
     return out
 
 
